@@ -602,7 +602,7 @@ let judge_main file =
          let special = List.mem name ["MULTI"; "EXEC"; "DISCARD"; "WATCH"; "UNWATCH"] in
          let queued = (reply = ["S515545554544"]) in
          (* representation invariants reported by the implementation's own checker (VerifCheck) *)
-         let bad j = (match j.jraw with _ :: c :: _ -> String.length c >= 3 && String.sub c 0 3 = "BAD" | _ -> false) in
+         let bad j = List.exists (fun c -> String.length c >= 3 && String.sub c 0 3 = "BAD") (take 4 j.jraw) in
          (match List.filter (fun j -> bad j && not (List.exists (fun p -> p.jname = j.jname && bad p) !prev_dump)) post with
           | j :: _ ->
               incr diffs;
